@@ -1127,24 +1127,35 @@ static void shrink(tape_t *best, const char *cls, double deadline)
 			}
 		}
 
-		/* 3. zero, halve, decrement single values */
+		/* 3. shrink single values: zero, then repeated halving, then decrements */
 		for (uint32_t i = 0; i < best->n; i++) {
 			if (!best->v[i])
 				continue;
-			uint32_t orig = best->v[i];
-			uint32_t tries[3] = { 0, orig / 2, orig - 1 };
-			for (int k = 0; k < 3; k++) {
+			if (now_s() > deadline)
+				return;
+			tape_copy(&cand, best);
+			cand.v[i] = 0;
+			if (try_cand(best, &cand, cls)) {
+				progress = true;
+				continue;
+			}
+			while (best->v[i] > 1) {
 				if (now_s() > deadline)
 					return;
-				if (tries[k] >= best->v[i])
-					continue;
 				tape_copy(&cand, best);
-				cand.v[i] = tries[k];
-				if (try_cand(best, &cand, cls)) {
-					progress = true;
-					if (!best->v[i])
-						break;
-				}
+				cand.v[i] = best->v[i] / 2;
+				if (!try_cand(best, &cand, cls))
+					break;
+				progress = true;
+			}
+			for (int k = 0; k < 6 && best->v[i] > 1; k++) {
+				if (now_s() > deadline)
+					return;
+				tape_copy(&cand, best);
+				cand.v[i] = best->v[i] - 1;
+				if (!try_cand(best, &cand, cls))
+					break;
+				progress = true;
 			}
 		}
 	}
